@@ -398,6 +398,9 @@ SUBMIT_JOB_CUSTOM_CIPHER(IMB_JOB *job)
 __forceinline IMB_JOB *
 FLUSH_JOB_CUSTOM_CIPHER(IMB_JOB *job)
 {
+        /* nothing to flush if the custom cipher already ran: the job is parked in its next stage */
+        if (job->status & IMB_STATUS_COMPLETED_CIPHER)
+                return NULL;
         return JOB_CUSTOM_CIPHER(job);
 }
 
@@ -422,6 +425,9 @@ SUBMIT_JOB_CUSTOM_HASH(IMB_JOB *job)
 __forceinline IMB_JOB *
 FLUSH_JOB_CUSTOM_HASH(IMB_JOB *job)
 {
+        /* nothing to flush if the custom hash already ran: the job is parked in its next stage */
+        if (job->status & IMB_STATUS_COMPLETED_AUTH)
+                return NULL;
         return JOB_CUSTOM_HASH(job);
 }
 
